@@ -10,7 +10,8 @@ RULE = ("the whole Schnorr proof space (public, commitment, challenge, response)
         "trimmed, truncated, lossy UTF-8, case-folded, SHA-512/SHA-256 digests, doubled) of empty / ASCII / padded / non-UTF-8 / "
         "65- and 140-byte labels, in-memory proofs with a non-canonical challenge c+q / c+2q, hash-consistent proofs of false statements made by "
         "the stock prover (publics perturbed so that weighted products of the two CP equations still balance, or one "
-        "public alone); accepted mutants are failing inputs at >=62 bits")
+        "public alone); accepted mutants are failing inputs at >=62 bits"
+        " Added in session 3: ONE Zkp value used for a whole sequence of proofs and verifications in three orders, compared with fresh instances;")
 
 
 def run(env):
